@@ -24,3 +24,17 @@ package iterators
 
 //@ iface Iterator.Err
 //@   modifies nothing
+
+// ---- C02 / C04: a selector that matches no container yields the empty iterator: no record, no error.
+
+//@ scope iterators.go
+
+//@ func (*EmptyIterator).Next
+//@   modifies nothing
+//@   ensures[no-element] !ret0
+//@ func (*EmptyIterator).Err
+//@   modifies nothing
+//@   ensures[no-error] ret0 == nil
+//@ func (*EmptyIterator).Close
+//@   modifies nothing
+//@   ensures[nothing-to-close] ret0 == nil
